@@ -22,7 +22,8 @@ RULE = ('Hypothesis: FileSpec (1-5 dims of length 1-5, 1-5 numeric variables '
         'dimensions in permuted keyword order x function per dimension: named '
         'reducer mean/sum/min/max/std/var/prod, or callable np.convolve('
         'valid/same/full, random kernel of 1-3 taps), np.diff (n>=2), x[::k], '
-        'np.cumsum, x[:1], np.ma.convolve; ~1/10 of cases with a callable use '
+        'np.cumsum, x[:1], np.diff(x, 2), a running sum of width 2-3, '
+        'np.ma.convolve; ~1/10 of cases with a callable use '
         "the documented dictionary form {dim: {'func1d': f, **options}}.  Oracle per variable holding named dimensions: "
         'the same numpy / numpy.ma method (axis=i, keepdims=True) or the same '
         '1-D function per slice, one named axis at a time, cast to the stored '
@@ -62,7 +63,10 @@ RULE = ('Hypothesis: FileSpec (1-5 dims of length 1-5, 1-5 numeric variables '
         'callables on a subset of LAY/ROW/COL/TSTEP; judged: dimension '
         'lengths, data of the listed variables, and bit identity with the '
         'input of every variable lacking all named dimensions (TFLAG '
-        'included).  Non-trivial: '
+        'included), and len(VGLVLS) == NLAYS + 1 == len(LAY) + 1; a third of '
+        'the IOAPI cases with a callable use the dictionary form, whose '
+        'options (step / n / width) change the output length of a function '
+        'that has defaults.  Non-trivial: '
         'masked variable reduced over an axis that is neither first nor '
         'last, or a length-changing callable, or a variable lacking the '
         'named dimensions present.  Distinct by sha1 of the case spec.')
@@ -93,9 +97,16 @@ FOPTS = dict(max_len=5, max_dims=5, max_vars=5, attrs=True, masked=True,
 @st.composite
 def funcs(draw, n):
     kind = draw(st.sampled_from(['red', 'red', 'red', 'conv', 'maconv',
-                                 'diff', 'sub', 'cumsum', 'first']))
+                                 'diff', 'sub', 'cumsum', 'first', 'diffn',
+                                 'win']))
+    if kind == 'diffn' and n < 3:
+        kind = 'diff'
     if kind == 'diff' and n < 2:
         kind = 'cumsum'
+    if kind == 'win' and n < 2:
+        kind = 'cumsum'
+    if kind == 'win':
+        return ['win', draw(st.integers(2, min(3, n)))]
     if kind == 'red':
         return ['red', draw(st.sampled_from(REDUCERS))]
     if kind in ('conv', 'maconv'):
@@ -186,7 +197,7 @@ def ioapi_cases(draw):
     nt = len(tsel) if tsel else sp['nt']
     dl = dict(TSTEP=nt, LAY=sp['nz'], ROW=sp['ny'], COL=sp['nx'])
     k = draw(st.integers(1, 3))
-    pool = ['LAY', 'ROW', 'COL', 'LAY', 'ROW', 'COL', 'TSTEP']
+    pool = ['LAY', 'ROW', 'COL', 'LAY', 'ROW', 'COL', 'TSTEP', 'LAY']
     chosen = []
     for d in draw(st.permutations(pool)):
         if d not in chosen:
@@ -194,12 +205,21 @@ def ioapi_cases(draw):
     chosen = chosen[:k]
     fl = []
     for d in chosen:
-        if draw(st.integers(0, 2)) > 0:
+        if draw(st.integers(0, 2)) > (1 if d == 'LAY' else 0):
             fl.append([d, ['red', draw(st.sampled_from(REDUCERS))]])
+        elif d in ('LAY', 'TSTEP') and dl[d] >= 2 and draw(st.booleans()):
+            # functions whose output length is set by an option
+            k_ = draw(st.sampled_from(['sub', 'win'] +
+                                      (['diffn'] if dl[d] >= 3 else [])))
+            fl.append([d, [k_, draw(st.integers(2, min(3, dl[d])))]
+                       if k_ != 'diffn' else ['diffn']])
         else:
             fl.append([d, draw(funcs(dl[d]).filter(
                 lambda f: f[0] != 'maconv'))])
-    return dict(entry='ioapi', ioapi=sp, tsel=tsel, funcs=fl, form='plain')
+    form = 'plain'
+    if any(fd[0] != 'red' for d, fd in fl) and draw(st.booleans()):
+        form = 'dict'
+    return dict(entry='ioapi', ioapi=sp, tsel=tsel, funcs=fl, form=form)
 
 
 def strategy(tier):
@@ -235,7 +255,46 @@ def lib_func(fd):
         return np.cumsum
     if kind == 'first':
         return lambda x: x[:1]
+    if kind == 'diffn':
+        return lambda x: np.diff(x, 2)
+    if kind == 'win':
+        width = int(fd[1])
+        return lambda x: _win(x, width=width)
     raise ValueError(fd)
+
+
+def _sub(x, step=1):
+    """every step-th element; the default keeps the length"""
+    return x[::step]
+
+
+def _win(x, width=1):
+    """running sum over `width` consecutive elements (n - width + 1 values);
+    the default keeps the length.  Slicing and adding only, so masked slices
+    stay masked."""
+    m = x.shape[0] - width + 1
+    out = x[0:m]
+    for k in range(1, width):
+        out = out + x[k:k + m]
+    return out
+
+
+def dict_form(fd):
+    """the documented dictionary form {'func1d': f, **options}: a function
+    WITH defaults plus the options that give it the case's behaviour (the
+    options change the output length for sub / diffn / win)"""
+    kind = fd[0]
+    if kind == 'conv':
+        return dict(func1d=np.convolve, v=list(fd[2]), mode=fd[1])
+    if kind == 'diff':
+        return dict(func1d=np.diff, n=1)
+    if kind == 'diffn':
+        return dict(func1d=np.diff, n=2)
+    if kind == 'sub':
+        return dict(func1d=_sub, step=int(fd[1]))
+    if kind == 'win':
+        return dict(func1d=_win, width=int(fd[1]))
+    return dict(func1d=lib_func(fd))
 
 
 def out_len(fd, n):
@@ -498,7 +557,15 @@ def check_ioapi(case):
         shape[0] = len(tsel)
     else:
         r.label('time-axis:regular')
-    kw = S.OD((d, lib_func(fd)) for d, fd in fl)
+    form = case.get('form', 'plain')
+    r.label('form:' + form)
+    kw = S.OD((d, dict_form(fd) if form == 'dict' and fd[0] != 'red'
+               else lib_func(fd)) for d, fd in fl)
+    if 'LAY' in fmap:
+        r.label('LAY-named:' + ('reducer' if fmap['LAY'][0] == 'red'
+                                else 'callable'))
+        if form == 'dict' and fmap['LAY'][0] in ('sub', 'diffn', 'win'):
+            r.label('LAY-dictform-length-option')
     dl = dict(zip(dims, shape))
     # variables of the INPUT that lack every named dimension
     before = S.OD()
@@ -524,6 +591,16 @@ def check_ioapi(case):
                       else None, want), klass='ioapi')
     if r.failures:
         return r
+    # the wrapper recomputes the vertical level edges: one more edge than
+    # layers (only the COUNT is asserted; the values are C10's business)
+    nl = len(out.dimensions['LAY'])
+    vg = np.atleast_1d(np.asarray(getattr(out, 'VGLVLS', [])))
+    if vg.size != nl + 1:
+        r.fail('ioapi-vglvls-count', 'ioapi: %d layers but VGLVLS has %d '
+               'edges %s' % (nl, vg.size, vg.tolist()), klass='ioapi')
+    if int(getattr(out, 'NLAYS', -1)) != nl:
+        r.fail('ioapi-nlays', 'ioapi: NLAYS=%r, LAY has %d' % (
+            getattr(out, 'NLAYS', None), nl), klass='ioapi')
     for name, (vd, arr) in before.items():
         if name not in out.variables:
             r.fail('var-names', 'ioapi: variable %s missing' % name,
@@ -603,12 +680,7 @@ def _check_case(case):
             if form == 'dict' and fd[0] != 'red':
                 # documented: "a dictionary ... must include func1d as a
                 # function and any keyword arguments as additional options"
-                if fd[0] == 'conv':
-                    lf = dict(func1d=np.convolve, v=list(fd[2]), mode=fd[1])
-                elif fd[0] == 'diff':
-                    lf = dict(func1d=np.diff, n=1)
-                else:
-                    lf = dict(func1d=lf)
+                lf = dict_form(fd)
             kw[d] = lf
         return kw
 
